@@ -8,11 +8,16 @@ class Boom(Exception):
     pass
 
 
+class Halt(BaseException):
+    """Harness-defined exception that derives from BaseException but NOT from Exception (what an
+    application-level "stop" class, or asyncio.CancelledError, looks like to a Deferred)."""
+
+
 def absres(res, names):
     """Abstract a real result for comparison with the model."""
     if isinstance(res, Failure):
         v = res.value
-        return ("F", v.args[0] if isinstance(v, Boom) and v.args else type(v).__name__)
+        return ("F", v.args[0] if isinstance(v, (Boom, Halt)) and v.args else type(v).__name__)
     if isinstance(res, defer.Deferred):
         return ("D", getattr(res, "vname", "?"))
     if res is None or type(res) in (int, str):
